@@ -80,17 +80,19 @@ type VerifRegisters struct {
 	GlobalStash                  bool
 	// leftovers of an aborted run: private-name environment, current async runner, program
 	PrivEnv, AsyncRunner, Prg bool
+	// runtime-wide bookkeeping of built-ins in progress (Array.prototype.join cycle detection)
+	ToStr int
 }
 
 func VerifRegs(r *Runtime) VerifRegisters {
 	vm := r.vm
 	return VerifRegisters{Cs: len(vm.callStack), Ts: len(vm.tryStack), Is: len(vm.iterStack), Rs: len(vm.refStack),
 		Sp: vm.sp, Sb: vm.sb, Jobs: len(r.jobQueue), Interrupted: vm.interrupted != 0, GlobalStash: vm.stash == nil || vm.stash == &r.global.stash,
-		PrivEnv: vm.privEnv != nil, AsyncRunner: vm.curAsyncRunner != nil, Prg: vm.prg != nil}
+		PrivEnv: vm.privEnv != nil, AsyncRunner: vm.curAsyncRunner != nil, Prg: vm.prg != nil, ToStr: len(r.toStringStack)}
 }
 
 func (v VerifRegisters) Idle() bool {
-	return v.Cs == 0 && v.Ts == 0 && v.Is == 0 && v.Rs == 0 && v.Sp == 0 && v.Jobs == 0 && v.GlobalStash && !v.PrivEnv && !v.AsyncRunner && !v.Prg
+	return v.Cs == 0 && v.Ts == 0 && v.Is == 0 && v.Rs == 0 && v.Sp == 0 && v.Jobs == 0 && v.GlobalStash && !v.PrivEnv && !v.AsyncRunner && !v.Prg && v.ToStr == 0
 }
 
 func verifOMap(o *Object) *orderedMap {
